@@ -330,8 +330,6 @@ func (c *Crew) GetChanged(ctx context.Context) (map[string]*Changed, error) {
 	changed := make(map[string]*Changed, 32)
 
 	for mid, change := range c.changed {
-		delete(c.changed, mid)
-
 		if mid == CaptainMachine {
 			continue
 		}
@@ -359,16 +357,32 @@ func (c *Crew) GetChanged(ctx context.Context) (map[string]*Changed, error) {
 
 	}
 
+	// Render the changes before forgetting any of them.  If one of
+	// them cannot be rendered (say a state with a NaN in it), none
+	// of them is reported now; all of them stay queued and are
+	// reported with the next call that succeeds.
+	rendered := make(map[string]string, len(changed))
 	for mid, ch := range changed {
 		if ch.Deleted {
-			delete(c.previous, mid)
 			continue
 		}
 		js, err := json.Marshal(ch)
 		if err != nil {
 			return nil, err
 		}
-		current := string(js)
+		rendered[mid] = string(js)
+	}
+
+	for mid := range c.changed {
+		delete(c.changed, mid)
+	}
+
+	for mid, ch := range changed {
+		if ch.Deleted {
+			delete(c.previous, mid)
+			continue
+		}
+		current := rendered[mid]
 		if previous, have := c.previous[mid]; have {
 			if current == previous {
 				delete(changed, mid)
